@@ -229,6 +229,17 @@ theorem C13_cache_coherent (E : Env) {w₀ : World} (h₀ : Inv w₀) (ops : Lis
     intro hdu b'
     rw [heq, resolve₀_not_dunder hdu b' b]; exact hb
 
+/-- `op.Plain` (no delegate trait is declared or added) is a real restriction
+(known finding F56): the `name_` shadow of a delegate that only *one instance*
+has is cached in the *class* dictionary, so afterwards `w_` is a delegate on an
+instance that never had `w` (first history: `b.w_ = 1` is a plain attribute
+write; second: the same write fails in the delegate setter). -/
+example :
+    (run Env.sample World.init [.new 0, .new 0, .set 1 ['w', '_'] (.int 1)]).2.getLast? = some (.ok .done) ∧
+    (run Env.sample World.init
+      [.new 0, .new 0, .addTrait 0 ['w'] { kind := .delegate, tag := 5 }, .get 0 ['w', '_'],
+       .set 1 ['w', '_'] (.int 1)]).2.getLast? = some (.error .traitError) := by decide
+
 /-- The usual shape of a program — all classes defined, then used — satisfies
 the hypothesis. -/
 theorem C13_cache_coherent_defs_first (E : Env) (defs uses : List Op)
@@ -402,6 +413,24 @@ theorem C13_strict_fails_dunder_write : ¬ C13_strict_full := by
   revert this
   decide
 
+/-- The full-strength wildcard clause for reads: with `_ = Int` declared, *every*
+name `HasTraits` does not declare itself reads as the wildcard's default. -/
+def C13_wildcard_read_full : Prop :=
+  ∀ (name : Name), name ≠ traitAdded → name ≠ traitModified → ¬ traitsCache <+: name →
+    (run Env.sample World.init [.mkClass [0] [(['_'], intTrait)], .new 3, .get 0 name]).2.getLast?
+      = some (.ok (.val (.int 0)))
+
+/-- Negation witness (known finding F53): reading an unset `__f__` raises
+AttributeError before the wildcard table is consulted.  (`Governs` above has the
+two `__xxx__` rules of the code as explicit constructors; the property text has
+no such clause — `C13_order` is therefore the *partial* form of the text's
+resolution order, exact for every name that is not `__xxx__`.) -/
+theorem C13_wildcard_read_fails_dunder : ¬ C13_wildcard_read_full := by
+  intro h
+  have := h "__f__".toList (by decide) (by decide) (by decide)
+  revert this
+  decide
+
 /-- Non-vacuity: a fresh `HasStrictTraits` subclass instance and an undeclared name. -/
 example : GovAt IsDisallow (run Env.sample World.init [.mkClass [1] [(['x'], intTrait)], .new 3]).1 0 ['f', 'o', 'o'] ∧
     DictAt (run Env.sample World.init [.mkClass [1] [(['x'], intTrait)], .new 3]).1 0 ['f', 'o', 'o'] none := by
@@ -492,6 +521,14 @@ theorem C13_readonly_with_default (E : Env) {w : World} (hw : NoDeleg w) {oi : N
 
 def roTrait : Trait := { kind := .readonly, dflt := .undef, tag := 3 }
 
+/-- Non-vacuity of the hypotheses: `r = ReadOnly` declared in a subclass of `HasTraits`. -/
+example : GovAt IsReadOnly (run Env.sample World.init [.mkClass [0] [(['r'], roTrait)], .new 3]).1 0 ['r'] ∧
+    DictAt (run Env.sample World.init [.mkClass [0] [(['r'], roTrait)], .new 3]).1 0 ['r'] none ∧
+    NoDeleg (run Env.sample World.init [.mkClass [0] [(['r'], roTrait)], .new 3]).1 :=
+  ⟨GovAt.of_class_trait (o := { cls := 3 }) (c := mkClass [clsHasTraits] [(['r'], roTrait)]) (t := roTrait)
+      (by decide) (by decide) (by decide) (by decide) ⟨rfl, rfl⟩ (Total_mkClass _ _),
+   ⟨{ cls := 3 }, by decide, by decide⟩, NoDeleg_run _ noDeleg_init (by decide)⟩
+
 /-- Non-vacuity, on a wildcard (`r_ = ReadOnly`), reading before the assignment. -/
 example : (run Env.sample World.init
     [.mkClass [0] [(['r', '_'], roTrait)], .new 3, .get 0 ['r', 'q'], .set 0 ['r', 'q'] (.int 1),
@@ -532,6 +569,14 @@ theorem C13_constant (E : Env) {w : World} (hw : NoDeleg w) {oi : Nat} {name : N
     · intro t d v d' ht hdn _ hk; rw [getattrKind_constant ht.1] at hk; cases hk; exact hdn
 
 def constTrait : Trait := { kind := .constant, dflt := .int 9, tag := 7 }
+
+/-- Non-vacuity of the hypotheses: `k = Constant(9)` inherited by a subclass. -/
+example : GovAt (IsConstant (.int 9))
+      (run Env.sample World.init [.mkClass [0] [(['k'], constTrait)], .mkClass [3] [], .new 4]).1 0 ['k'] ∧
+    DictAt (run Env.sample World.init [.mkClass [0] [(['k'], constTrait)], .mkClass [3] [], .new 4]).1 0 ['k'] none :=
+  ⟨GovAt.of_class_trait (o := { cls := 4 }) (c := mkClass [mkClass [clsHasTraits] [(['k'], constTrait)]] [])
+      (t := constTrait) (by decide) (by decide) (by decide) (by decide) ⟨rfl, rfl⟩ (Total_mkClass _ _),
+   ⟨{ cls := 4 }, by decide, by decide⟩⟩
 
 /-- Non-vacuity: `k = Constant(9)` declared two levels up, read through a subclass. -/
 example : (run Env.sample World.init
@@ -579,6 +624,14 @@ theorem C13_event_write_only (E : Env) {w : World} (hw : NoDeleg w) {oi : Nat} {
     · intro t d v d' ht _ _ hk; rw [getattrKind_event ht.1] at hk; cases hk
 
 def evIntTrait : Trait := { kind := .event, dflt := .undef, validator := some 0, tag := 8 }
+
+/-- Non-vacuity of the hypotheses: `e = Event(Int)` declared on a `HasStrictTraits` subclass. -/
+example : GovAt (IsEvent (some 0))
+      (run Env.sample World.init [.mkClass [1] [(['e'], evIntTrait)], .new 3]).1 0 ['e'] ∧
+    DictAt (run Env.sample World.init [.mkClass [1] [(['e'], evIntTrait)], .new 3]).1 0 ['e'] none :=
+  ⟨GovAt.of_class_trait (o := { cls := 3 }) (c := mkClass [clsHasStrictTraits] [(['e'], evIntTrait)])
+      (t := evIntTrait) (by decide) (by decide) (by decide) (by decide) ⟨rfl, rfl⟩ (Total_mkClass _ _),
+   ⟨{ cls := 3 }, by decide, by decide⟩⟩
 
 /-- Non-vacuity: `e_ = Event(Int)` as a wildcard. -/
 example : (run Env.sample World.init
